@@ -376,3 +376,64 @@ def partial_shuffle(facts):
                 out.append(ob("sampling.shuffle", key, n.get("loc", fn["pat"]), "violated", "random(%s) is not added to the current position: the swap partner is drawn from the first `len - i` slots instead of the positions not yet fixed, so the selected subset is not uniform (inclusion frequencies are biased)" % txt(a), fn["qname"]))
         walkp(fn["body"], v)
     return out
+
+
+def _random_decisions(fn):
+    """[(canonical condition, effects of the then-arm, effects of the else-arm)] for every if whose condition draws a random number;
+    an effect is the text of a statement-level call / assignment of the arm, locals read through their initialisers"""
+    from astu import canon_inl, inline_local_lambdas
+    sal = canon_inl(fn)       # single-assignment locals read as their initialiser, all other locals by a name-independent identity
+    fn = dict(fn, body=inline_local_lambdas(fn))      # `pick(a, b)` of a local one-expression lambda reads as its expression
+    out = []
+    opaque = [False]
+
+    def eff(arm):
+        res = []
+        for st in stmts_of(arm) if arm is not None else []:
+            if st.get("k") == "Expr":
+                res.append(C(txt(st["e"], sal).replace(" ", "")))
+            elif st.get("k") == "If":
+                res.append("if(%s){%s}else{%s}" % (C(txt(st["c"], sal).replace(" ", "")), ";".join(eff(st.get("t"))), ";".join(eff(st.get("e")))))
+            else:
+                res.append(st.get("k"))
+        return res
+
+    def v(n):
+        if n.get("k") == "If":
+            draws = []
+            walk(n["c"], lambda x: draws.append(x) if x.get("k") == "Call" and (x.get("cname") or "").startswith(("next_double", "random_")) else None)
+            lam = []
+            walk(n["c"], lambda x: lam.append(x) if x.get("k") == "OpCall" and x.get("op") == "()" else None)
+            if lam:
+                opaque[0] = True
+            if draws:
+                out.append([C(txt(n["c"], sal).replace(" ", "")), eff(n.get("t")), eff(n.get("e"))])
+    walk(fn["body"], v)
+    return out, opaque[0]
+
+
+def ebpps_merge_decisions(facts):
+    """ebpps_sample::merge decides by three random draws which partial item becomes a full item / stays partial, each with a
+    probability that is a closed form of the two fractional parts.  The decisions (condition, what either arm does) equal the
+    reviewed ones (spec/ebpps_merge.json), compared after canonicalisation with locals read through their initialisers; a draw
+    hidden in a local lambda cannot be related and is reported for review."""
+    import json, os
+    from vlib.core import VERIF
+    fns = functions_by(facts, ["sampling"])
+    sp = json.load(open(os.path.join(VERIF, "spec", "ebpps_merge.json")))["decisions"]
+    out = []
+    for pat, fn in sorted(fns.items()):
+        if fn["name"] != "merge" or "ebpps_sample" not in (fn.get("rect") or "") or fn.get("body") is None:
+            continue
+        key = "ebpps_sample::merge:random-decisions"
+        got, opaque = _random_decisions(fn)
+        want = [list(x) for x in sp]
+        if sorted(map(json.dumps, got)) == sorted(map(json.dumps, want)):
+            out.append(ob("ebpps.merge", key, fn["pat"], "discharged", "%d random decisions with the reviewed probabilities and effects" % len(got), fn["qname"]))
+        elif opaque or len(got) != len(want):
+            out.append(ob("ebpps.merge", key, fn["pat"], "unrecognised", "the random decisions of merge() are written in a form that cannot be related to the reviewed ones (%d found, %d reviewed%s): re-review spec/ebpps_merge.json" % (len(got), len(want), "; a draw sits inside a local lambda" if opaque else ""), fn["qname"]))
+        else:
+            diff = [g for g in got if g not in want]
+            out.append(ob("ebpps.merge", key, fn["pat"], "violated", "a random decision of merge() differs from the reviewed one: `%s` -> %s / %s: the probabilities with which the two partial items are promoted / kept are exchanged or changed, so inclusion is no longer proportional to weight" % (diff[0][0][:140], diff[0][1], diff[0][2]), fn["qname"]))
+        break
+    return out
